@@ -1501,6 +1501,19 @@ def classes_of(r):
     return cls
 
 
+LEAK_PROPS = ("C16", "C03", "C05")      # monitors with a "nothing is left over at the end" conjunct
+
+
+def deferred_after_last_drop(r):
+    """the REAL trace submits a closure after the last `dropend`: no Stakker exists any more and none follows"""
+    lines = (r.get("real") or {}).get("lines", []) if isinstance(r.get("real"), dict) else []
+    last = -1
+    for i, l in enumerate(lines):
+        if l == "dropend":
+            last = i
+    return last >= 0 and any(l.startswith("sub ") for l in lines[last + 1:])
+
+
 def findings_for(prop):
     res = {}
     for f in vlib.known_findings():
@@ -1540,7 +1553,12 @@ def check_cases(prop, binary, driver, cases, tag, drop_log=False):
         else:
             summ["validated"] += 1
         # the property's monitor on the REAL trace (whatever the model says)
-        if r["realmon"].get(prop) is False:
+        if r["realmon"].get(prop) is False and v == "ok" and prop in LEAK_PROPS and deferred_after_last_drop(r):
+            # the documented exclusion of C16 ("deferring after the Stakker is dropped"): a closure submitted after the
+            # last Stakker of the case was dropped is parked for ever, with everything it captures; real crate and model
+            # agree on the whole trace (v == "ok").  Counted, never a verdict (DESIGN.md 11.4, EpilogueDepth).
+            summ["excluded_defer_after_drop"] = summ.get("excluded_defer_after_drop", 0) + 1
+        elif r["realmon"].get(prop) is False:
             cls = classes_of(r) & set(known)
             if cls:
                 for c in cls:
@@ -1565,6 +1583,8 @@ def make_fails(prop, binary, driver, kind, drop_log=False):
         if kind == "diff":
             return v == "diff"
         if kind == "mon":
+            if v == "ok" and prop in LEAK_PROPS and deferred_after_last_drop(r):
+                return False
             return v in ("ok", "diff") and r["realmon"].get(prop) is False and not (classes_of(r) & set(findings_for(prop)))
         return v == "crash"
     return fails
@@ -1638,6 +1658,7 @@ def run(prop, tier, seed):
             n_eval += len(cases)
             for k_ in ("ok", "ambig", "validated", "fuel"):
                 summ_all[k_] += summ[k_]
+            summ_all["excluded_defer_after_drop"] = summ_all.get("excluded_defer_after_drop", 0) + summ.get("excluded_defer_after_drop", 0)
             for fid, names in summ["known"].items():
                 known_seen.setdefault(fid, []).extend(names)
             for name, _ in cases:
@@ -1718,6 +1739,7 @@ def run(prop, tier, seed):
         rule="a case counts as non-trivial for %s if its real trace has %s; distinct = distinct canonical real traces" % (prop, NONTRIVIAL[prop][0]),
         samples=samples, distribution=dist,
         skipped_ambiguous_timer_order=summ_all["ambig"], model_out_of_fuel=summ_all["fuel"],
+        excluded_defer_after_last_stakker_drop=summ_all.get("excluded_defer_after_drop", 0),
         known_finding_cases=dict((k, len(v)) for k, v in known_seen.items()),
         sanitizer=san_info,
         theorem=CLAIM[prop]["proved"], theorem_is_partial=CLAIM[prop]["partial"], not_proved=CLAIM[prop]["missing"],
